@@ -371,17 +371,95 @@ func genKeySignature(r *Rng, p *pool, tier string, emit Emit) {
 // SetSignature field assembly (scheme detection, hash defaulting, sizes, versions) against the model
 func genSetSignature(r *Rng, p *pool, emit Emit) {
 	msg := H(r.Bytes(r.Pick(0, 1, 32, 50)))
+	// what the structure holds before the call: nothing, or an earlier signature of any kind
+	prior := func() []string {
+		if r.Chance(1, 5) {
+			return append(sigArgs(0, 0, 0, 0, nil), "0")
+		}
+		sc := uint16(r.Pick(int(cbnt.AlgRSASSA), int(cbnt.AlgRSAPSS), int(cbnt.AlgECDSA), int(cbnt.AlgSM2), 0x55))
+		hh := uint16(r.Pick(int(cbnt.AlgSHA256), int(cbnt.AlgSHA384), int(cbnt.AlgSHA512), int(cbnt.AlgSM3), int(cbnt.AlgSHA1), 0x99, int(cbnt.AlgNull)))
+		n := r.Pick(64, 96, 128, 256, 384, 3)
+		return append(sigArgs(sc, uint8(r.Pick(0x10, 0x55)), uint16(r.Pick(n*8, 256, 0x5555)), hh, r.Bytes(n)),
+			N(uint64(r.Pick(int(cbnt.AlgSHA256), int(cbnt.AlgSHA384), 0, 0x99))))
+	}
+	container := func() string { return []string{"sig", "ks", "ks", "km", "bpm"}[r.Intn(5)] }
 	k := p.anyRSA(r)
-	sa := r.Pick(0, 0, int(cbnt.AlgRSASSA), int(cbnt.AlgRSAPSS), int(cbnt.AlgECDSA), int(cbnt.AlgSM2), 0x99, 1)
-	ha := r.Pick(0, int(cbnt.AlgNull), int(cbnt.AlgSHA256), int(cbnt.AlgSHA384), int(cbnt.AlgSHA1), int(cbnt.AlgSHA512), int(cbnt.AlgSM3), 0x99)
-	emit("C", "set_signature", privSpec(k), "rsa", Big(k.N), I(int64(k.E)), N(uint64(sa)), N(uint64(ha)), msg, N(r.U64()>>1))
+	sa := r.Pick(0, 0, 0, int(cbnt.AlgRSASSA), int(cbnt.AlgRSASSA), int(cbnt.AlgRSAPSS), int(cbnt.AlgRSAPSS), int(cbnt.AlgECDSA), int(cbnt.AlgSM2), 0x99, 1)
+	ha := r.Pick(0, 0, int(cbnt.AlgNull), int(cbnt.AlgNull), int(cbnt.AlgSHA256), int(cbnt.AlgSHA384), int(cbnt.AlgSHA1), int(cbnt.AlgSHA512), int(cbnt.AlgSM3), 0x99)
+	emit("C", "set_signature", append([]string{container(), privSpec(k), "rsa", Big(k.N), I(int64(k.E)), N(uint64(sa)), N(uint64(ha)), msg, N(r.U64() >> 1)}, prior()...)...)
 	e := p.ecc[r.Intn(len(p.ecc))]
 	sa = r.Pick(0, 0, int(cbnt.AlgECDSA), int(cbnt.AlgECDSA), int(cbnt.AlgSM2), 0x99)
-	ha = r.Pick(0, int(cbnt.AlgNull), int(cbnt.AlgSHA256), int(cbnt.AlgSHA384), int(cbnt.AlgSHA1), int(cbnt.AlgSHA512), int(cbnt.AlgSM3), 0x99)
-	emit("C", "set_signature", privSpec(e), "ecc", Big(e.X), Big(e.Y), N(uint64(sa)), N(uint64(ha)), msg, N(r.U64()>>1))
+	ha = r.Pick(0, 0, int(cbnt.AlgNull), int(cbnt.AlgSHA256), int(cbnt.AlgSHA384), int(cbnt.AlgSHA1), int(cbnt.AlgSHA512), int(cbnt.AlgSM3), 0x99)
+	emit("C", "set_signature", append([]string{container(), privSpec(e), "ecc", Big(e.X), Big(e.Y), N(uint64(sa)), N(uint64(ha)), msg, N(r.U64() >> 1)}, prior()...)...)
 	s := p.sm[r.Intn(len(p.sm))]
 	sa = r.Pick(0, 0, int(cbnt.AlgSM2), int(cbnt.AlgSM2), int(cbnt.AlgECDSA), 0x99)
-	emit("C", "set_signature", privSpec(s), "sm2", Big(s.X), Big(s.Y), N(uint64(sa)), N(uint64(ha)), msg, N(r.U64()>>1))
+	emit("C", "set_signature", append([]string{container(), privSpec(s), "sm2", Big(s.X), Big(s.Y), N(uint64(sa)), N(uint64(ha)), msg, N(r.U64() >> 1)}, prior()...)...)
+}
+
+// sequences of signing operations on one structure: every step is a valid (key, scheme, hash)
+func genResign(r *Rng, p *pool, it int, emit Emit) {
+	type step struct {
+		key          crypto.Signer
+		scheme, hash int
+	}
+	pss, ssa, ecd, sm := int(cbnt.AlgRSAPSS), int(cbnt.AlgRSASSA), int(cbnt.AlgECDSA), int(cbnt.AlgSM2)
+	rsaStep := func() step {
+		var k *rsa.PrivateKey
+		switch r.Intn(8) {
+		case 0, 1, 2:
+			k = p.rsa2048[r.Intn(len(p.rsa2048))]
+		case 3, 4:
+			k = p.rsa1024[r.Intn(len(p.rsa1024))]
+		case 5, 6:
+			k = p.rsa3072[r.Intn(len(p.rsa3072))]
+		default:
+			k = p.rsa4096[r.Intn(len(p.rsa4096))]
+		}
+		sc := r.Pick(pss, ssa)
+		if (k.Size() == 256 || k.Size() == 384) && r.Chance(1, 2) {
+			sc = 0
+		}
+		return step{k, sc, r.Pick(0, 0, 0, int(cbnt.AlgNull), int(cbnt.AlgSHA256), int(cbnt.AlgSHA384))}
+	}
+	ecStep := func() step {
+		if r.Bool() {
+			return step{p.ecc[r.Intn(len(p.ecc))], r.Pick(ecd, 0), r.Pick(0, 0, int(cbnt.AlgNull), int(cbnt.AlgSHA256), int(cbnt.AlgSHA384), int(cbnt.AlgSHA512))}
+		}
+		return step{p.sm[r.Intn(len(p.sm))], r.Pick(sm, 0), r.Pick(0, 0, int(cbnt.AlgSM3))}
+	}
+	var steps []step
+	switch it % 6 {
+	case 0: // RSAPSS with its default hash, then detection with a 2048-bit key (RSASSA, SHA-256)
+		steps = []step{{p.rsa2048[0], pss, 0}, {p.rsa2048[r.Intn(len(p.rsa2048))], 0, 0}}
+	case 1: // RSASSA/SHA-256, then RSAPSS with a null hash
+		steps = []step{{p.rsa2048[0], ssa, int(cbnt.AlgSHA256)}, {p.rsa1024[0], pss, int(cbnt.AlgNull)}}
+	case 2: // explicit non-default hash, then null with the same scheme, then the other scheme
+		sc := r.Pick(pss, ssa)
+		other := map[int]int{pss: ssa, ssa: pss}[sc]
+		nd := map[int]int{pss: int(cbnt.AlgSHA256), ssa: int(cbnt.AlgSHA384)}[sc]
+		steps = []step{{p.rsa1024[1], sc, nd}, {p.rsa1024[1], sc, 0}, {p.rsa3072[0], other, 0}}
+	case 3: // an elliptic-curve signature first, then RSA with a null hash, and back
+		steps = []step{ecStep(), rsaStep(), ecStep()}
+		steps[1].hash = 0
+	default:
+		for i := r.Range(2, 4); i > 0; i-- {
+			if r.Chance(1, 4) {
+				steps = append(steps, ecStep())
+			} else {
+				steps = append(steps, rsaStep())
+			}
+		}
+	}
+	container := []string{"ks", "sig", "km", "bpm", "ks", "km"}[(it/6+it)%6]
+	args := []string{container, N(r.U64() >> 1), N(uint64(len(steps)))}
+	for _, st := range steps {
+		rt := "0"
+		if r.Chance(1, 2) {
+			rt = "1"
+		}
+		args = append(args, privSpec(st.key), N(uint64(st.scheme)), N(uint64(st.hash)), H(r.Bytes(r.Pick(1, 24, 32, 60))), rt)
+	}
+	emit("P", "p_resign", args...)
 }
 
 func genSignOracles(r *Rng, p *pool, tier string, it int, emit Emit) {
@@ -807,6 +885,7 @@ func gen(r *Rng, tier string, emit Emit) {
 		genKeySignature(rr.Fork(2), p, tier, emit)
 		genSignOracles(rr.Fork(3), p, tier, it, emit)
 		genSetSignature(rr.Fork(13), p, emit)
+		genResign(rr.Fork(14), p, it, emit)
 		genBpmKey(rr.Fork(4), p, tier, it, emit)
 		genIbb(rr.Fork(5), tier, it, emit)
 		genPsb(rr.Fork(6), p, tier, it, emit)
